@@ -5,6 +5,8 @@
 #include <new>
 #include <cstdio>
 #include <map>
+#include <stdexcept>
+#include <typeinfo>
 
 static const char* cat_name(ipr::Category_code c)
 {
@@ -66,6 +68,27 @@ int main()
    iprv::Zoo zoo;
    zoo.build();
    for (auto& e : zoo.nodes) report(e.label, *e.node);
+   // visitors that refuse: tens of thousands of visits left through an exception (what Missing_overrider and the printer do for
+   // constructs they do not support) must leave no trace: the same nodes are then inspected again
+   {
+      struct Refusing : ipr::Visitor {
+#define SINK(X) void visit(const ipr::X&) override { throw std::logic_error("refused"); }
+#include "sinks.def"
+#undef SINK
+      } refusing;
+      long refused = 0;
+      for (int round = 0; round < 60000; ++round) {
+         auto& e = zoo.nodes[std::size_t(round) % zoo.nodes.size()];
+         try { e.node->accept(refusing); }
+         catch (const std::logic_error&) { ++refused; }
+      }
+      std::printf("refusals category=%ld\n", refused);
+      std::fflush(stdout);
+      for (std::size_t i = 0; i < zoo.nodes.size(); i += 9) {
+         try { report("after-refusals:" + zoo.nodes[i].label, *zoo.nodes[i].node); }
+         catch (const std::exception& e) { std::printf("after-refusals:%s cat=? full=EXCEPTION(%s) sinks=? views=?\n", zoo.nodes[i].label.c_str(), typeid(e).name()); }
+      }
+   }
    // nodes of DIFFERENT classes that live one after the other at the SAME address (storage reuse after a node dies):
    // the answers must depend on the node, not on what used to be at that address
    {
